@@ -156,6 +156,20 @@ def r02_1(ctx: Ctx, rep: Report) -> None:  # noqa: C901
         units = [unit]
         f, var, paths, anchor, is_helper = units[0]
         lp_ast = anchor
+        # the kind of item is picked by a table (`for types, convert in converters: if isinstance(item, types): ...`): which
+        # statements handle which kind cannot be read off the paths - not judged, never an alarm
+        table_pick = False
+        for path in paths:
+            for n_, lab_ in path:
+                if n_.kind == "cond" and isinstance(n_.ast, ast.Call) and src(n_.ast.func) == "isinstance" and len(n_.ast.args) == 2 and src(n_.ast.args[0]) == var:
+                    spec = n_.ast.args[1]
+                    names = [src(e) for e in (spec.elts if isinstance(spec, ast.Tuple) else [spec])]
+                    if not all(nm in ctx.prog.classes or nm in ("str", "dict", "list", "tuple", "int", "bytes") or nm.startswith("self.") or "." in nm for nm in names):
+                        table_pick = True
+        if table_pick:
+            rep.instance()
+            rep.note(f"R02.1b {q}: the kind of an item is looked up in a table of converters - stamping of adopted items not judged")
+            continue
         for path in paths:
             atoms = [(src(n.ast), lab == "T") for n, lab in path if n.kind == "cond" and lab in ("T", "F")]
             kind = None
